@@ -342,6 +342,15 @@ def run(ctx):
         "a.P": {"type": "record", "name": "a.P", "fields": [{"name": "q", "type": "b.Q"}, {"name": "r", "type": "b.R"}]},
         "b.Q": {"type": "record", "name": "Q", "namespace": "b", "fields": [{"name": "r", "type": "R"}]},
         "b.R": {"type": "record", "name": "R", "namespace": "b", "fields": []}}))
+    # a null-namespace record nested ("namespace": "") in a namespaced file refers to a null-namespace type with its own file
+    graphs.append(dict(top="a.P", n=3, deps={"a.P": ["X", "a.E"], "X": [], "a.E": []}, files={
+        "a.P": {"type": "record", "name": "P", "namespace": "a", "fields": [
+            {"name": "e", "type": "E"},
+            {"name": "q", "type": {"type": "record", "name": "Q", "namespace": "", "fields": [
+                {"name": "x", "type": "X"}, {"name": "k", "type": {"type": "enum", "name": "K", "symbols": ["A"]}}, {"name": "k2", "type": ["null", "K"]}]}},
+            {"name": "e2", "type": ["null", "a.E"]}]},
+        "X": {"type": "fixed", "name": "X", "size": 3},
+        "a.E": {"type": "enum", "name": "E", "namespace": "a", "symbols": ["A", "B"]}}))
     d = tempfile.mkdtemp(prefix="c19.", dir=ctx.workdir)
     try:
         exprs, index = [], []
